@@ -14,6 +14,19 @@ ASSUMPTIONS = ["modules use the default timeout settings, so the three paths are
 TRUSTED = ["translator tools/xlate.py (definitions.rs, game_query_mod! invocations, hand-written modules' default ports), validated by this differential"]
 
 
+# definitions-table protocol tag -> (family whose generator scripts the server, (argument index, value) selecting the variant)
+PROTO_FAMILY = {
+    "unreal2": ("unreal2", None), "quake1": ("quake", (1, "1")), "quake2": ("quake", (1, "2")), "quake3": ("quake", (1, "3")),
+    "gs1": ("gs1", None), "gs2": ("gs2", None), "gs3": ("gs3", None),
+    "prop:FFOW": ("ffow", None), "prop:Savage2": ("savage2", None), "prop:TheShip": ("theship", None), "prop:JC2M": ("jc2m", None),
+    "prop:Mindustry": ("mindustry", None), "prop:Minecraft(None)": ("mcauto", None),
+    "prop:Minecraft(Some(Server::Java))": ("mcjava", None), "prop:Minecraft(Some(Server::Bedrock))": ("mcbedrock", None),
+    "prop:Minecraft(Some(Server::Legacy(LegacyGroup::V1_6)))": ("mclegacy", (1, "16")),
+    "prop:Minecraft(Some(Server::Legacy(LegacyGroup::V1_4)))": ("mclegacy", (1, "14")),
+    "prop:Minecraft(Some(Server::Legacy(LegacyGroup::VB1_8)))": ("mclegacy", (1, "18")),
+}
+
+
 def run(rep, tier, seed, replay=None):
     if replay is not None:
         vlib.correspond(rep, replay, oracle=netprops.crash_oracle, trivial=netprops.trivial, tag="c14")
@@ -68,6 +81,48 @@ def run(rep, tier, seed, replay=None):
                             cases.append(grp["module"])
                     groups.append(grp)
         rep.count("game:" + ("with-module" if m else "definition-only"))
+    # ---- every other protocol of the table: the same three paths on the real code, compared through the sorted JSON of
+    # as_original() (the paths themselves are glue: games/query.rs, the game_query_mod! modules, the protocol entry points)
+    any_groups, any_lines = [], []
+    for d in tables["defs"]:
+        if d["proto"] == "valve":
+            continue
+        fam, filt = PROTO_FAMILY.get(d["proto"], (None, None))
+        if fam is None or fam not in netprops.FAMILIES:
+            rep.count("no-family-for:" + d["proto"].split("(")[0])
+            continue
+        m = mods.get(d["id"]) or byname.get(d["name"])
+        has_module = m is not None or d["id"].startswith("minecraft")
+        valid = netprops.valid_cases(fam, seed + 14, 40 if tier == "quick" else 200)
+        if filt:
+            sel = [v for v in valid if v.case().args[filt[0]] == filt[1]]
+            valid = sel or valid
+        valid = valid[:per * 2]
+        k = 0
+        for v in valid:
+            base = v.case()
+            variants = [("valid", base)]
+            # the exchange cut after j deliveries: a request that is never answered
+            n0 = len(base.script[0]) if base.script and base.script[0] != "X" else 0
+            for j in sorted({1, n0 - 1, rnd.randint(0, max(n0 - 1, 0))}):
+                if 0 <= j < n0:
+                    c2 = base.clone()
+                    c2.script[0] = c2.script[0][:j]
+                    variants.append((f"cut-after-{min(j, 3)}", c2))
+            mc, what = netcases.mutate(base, rnd)
+            variants.append((what, mc))
+            for what, c in variants:
+                for port in ("-", str(rnd.choice([27015, 1, 65535, d["port"]]))):
+                    k += 1
+                    script_opts = " ".join([c.fmt_script()] + c.opts)
+                    gid = f"{d['id']}_{k}"
+                    grp = {"id": d["id"], "what": what,
+                           "generic": f"{gid}g any-generic {d['id']} {port} {script_opts}",
+                           "protocol": f"{gid}p any-protocol {d['proto']} {d['port'] if port == '-' else port} {script_opts}",
+                           "module": f"{gid}m any-module {(m or d)['id']} {port} {script_opts}" if has_module else None}
+                    any_groups.append(grp)
+                    any_lines += [x for x in (grp["generic"], grp["protocol"], grp["module"]) if x]
+        rep.count("game:" + ("with-module" if has_module else "definition-only"))
     model, impl, panics = vlib.correspond(rep, netprops.corpus("C14") + cases, oracle=netprops.crash_oracle, trivial=netprops.trivial, tag="c14")
     # battalion module lines: implementation only
     extra = [g["module"] for g in groups if g["module"] and g["id"] == "battalion1944"]
@@ -78,15 +133,31 @@ def run(rep, tier, seed, replay=None):
         out = impl.get(line.split(" ", 1)[0], "")
         return vlib.result_of(out), [(p, d) for (_, p, d, _) in vlib.sends_of(out)]
 
-    for g in groups:
+    aimpl, apanics = vlib.run_impl(any_lines, tag="c14a") if any_lines else ({}, {})
+    impl.update(aimpl)
+    for line in any_lines:
+        cid = line.split(" ", 1)[0]
+        out = aimpl.get(cid, "")
+        rep.seen(line, out, netprops.trivial(line, out))
+        if out.startswith(("CRASH", "ABORT", "HANG")) or cid in apanics or out.startswith(("no-such", "bad-case")) or not out:
+            rep.oracle_failures.append((f"path-broken:{line.split(' ')[1]}:{line.split(' ')[2]}", f"{out[:160]} {apanics.get(cid, '')}"[:300], line, out[:300]))
+    def differ(a, b):
+        """what differs between two observations: destination ports, request bytes, or only the result"""
+        if [p for p, _ in a[1]] != [p for p, _ in b[1]]:
+            return "port"
+        if a[1] != b[1]:
+            return "bytes"
+        return "result"
+
+    for g in groups + any_groups:
         go = obs(g["generic"])
         po = obs(g["protocol"])
         if go != po:
-            rep.oracle_failures.append((f"paths-differ:generic-vs-protocol:{g['id']}", f"{g['what']}: generic {str(go)[:200]} protocol {str(po)[:200]}", g["generic"], str(go)[:300]))
+            rep.oracle_failures.append((f"paths-differ:generic-vs-protocol:{g['id']}:{differ(go, po)}", f"{g['what']}: generic {str(go)[:200]} protocol {str(po)[:200]}", g["generic"], str(go)[:300]))
         if g["module"]:
             mo = obs(g["module"])
             if mo != go:
-                rep.oracle_failures.append((f"paths-differ:generic-vs-module:{g['id']}", f"{g['what']}: generic {str(go)[:200]} module {str(mo)[:200]}", g["module"], str(mo)[:300]))
-    rep.extra_cov["games_compared"] = len({g["id"] for g in groups})
-    rep.extra_cov["programs"] = len({g["id"] for g in groups})
-    rep.extra_cov["disagreements_checked"] = len(groups)
+                rep.oracle_failures.append((f"paths-differ:generic-vs-module:{g['id']}:{differ(go, mo)}", f"{g['what']}: generic {str(go)[:200]} module {str(mo)[:200]}", g["module"], str(mo)[:300]))
+    rep.extra_cov["games_compared"] = len({g["id"] for g in groups + any_groups})
+    rep.extra_cov["programs"] = len({g["id"] for g in groups + any_groups})
+    rep.extra_cov["disagreements_checked"] = len(groups) + len(any_groups)
